@@ -125,17 +125,13 @@ Proof.
 Qed.
 Print Assumptions C10_angular_cossin.
 
-(* Angular.__sub__ as written (sorted by length): correct only when the left
-   operand is strictly longer; refuted otherwise (finding C10:angular-sub-sign) *)
-Theorem C10_angular_sub_partial : forall a b x, (length b < length a)%nat ->
-  pevR (asub_sorted R Rminus a b) x = pevR a x - pevR b x.
-Proof. exact asub_sorted_partial. Qed.
-Print Assumptions C10_angular_sub_partial.
-
-Theorem C10_angular_sub_refuted :
-  exists a b x, pevR (asub_sorted R Rminus a b) x <> pevR a x - pevR b x.
-Proof. exact asub_sorted_refuted. Qed.
-Print Assumptions C10_angular_sub_refuted.
+(* Angular.__sub__ (self + (-1.0) * other; the translator tools/translate/angular_sub.py
+   selects this model, asub_direct, from the source and fails closed on any other
+   body): the difference is the evaluation homomorphism, any lengths *)
+Theorem C10_angular_sub : forall a b x,
+  pevR (asub_direct R Rminus Ropp a b) x = pevR a x - pevR b x.
+Proof. exact (eval_asub_direct R 0 1 Rplus Rmult Rminus Ropp RTheory). Qed.
+Print Assumptions C10_angular_sub.
 
 (* Legendre series: the coefficient lists satisfy Bonnet's recursion (all n) *)
 Theorem C10_angular_legendre : forall c n x,
